@@ -346,6 +346,10 @@ def main(argv=None):
         print("HARNESS %s: %s" % (prop, e))
         traceback.print_exc()
         return 2
+    except Exception as e:  # a crash of the machinery is never a verdict
+        print("HARNESS %s: unexpected %s: %s" % (prop, type(e).__name__, e))
+        traceback.print_exc()
+        return 2
 
 
 if __name__ == "__main__":
